@@ -4,6 +4,7 @@ import (
 	"fmt"
 	"os"
 	"strconv"
+	"strings"
 
 	"github.com/bufbuild/protocompile/experimental/ast/printer"
 	xparser "github.com/bufbuild/protocompile/experimental/parser"
@@ -16,6 +17,24 @@ import (
 func init() {
 	props["XDBG"] = func(h *hx.H) {
 		src, _ := strconv.Unquote(os.Getenv("XDBG_INPUT"))
+		if f := os.Getenv("XDBG_FILE"); f != "" {
+			b, _ := os.ReadFile(f)
+			src = string(b)
+			if os.Getenv("XDBG_CRLF") != "" {
+				src = strings.ReplaceAll(src, "\n", "\r\n")
+			}
+			rep := &report.Report{}
+			file, _ := xparser.Parse("t.proto", source.NewFile("t.proto", src), rep)
+			out, _ := printer.PrintFile(printer.Options{}, file)
+			i := 0
+			for i < len(src) && i < len(out) && src[i] == out[i] {
+				i++
+			}
+			lo := max(0, i-60)
+			fmt.Printf("first difference at %d of %d/%d\n  src: %q\n  out: %q\n", i, len(src), len(out), src[lo:min(len(src), i+60)], out[lo:min(len(out), i+60)])
+			h.Eval(1)
+			return
+		}
 		rep := &report.Report{}
 		file, ok := xparser.Parse("t.proto", source.NewFile("t.proto", src), rep)
 		fmt.Printf("input %q ok=%v\n", src, ok)
